@@ -81,12 +81,12 @@ inductive All2 {α β : Type} (R : α → β → Prop) : List α → List β →
 /-! ## the per-column invariant -/
 
 /-- header entry `b` faithfully stores history entry `h = (timestamp, raw bytes)` in `file` -/
-def Good (dec : Bytes → Option Bytes) (file : Bytes) (cur : Nat) (b : Blk) (h : Int × Bytes) : Prop :=
+def Good (dec : Nat → Bytes → Option Bytes) (file : Bytes) (cur : Nat) (b : Blk) (h : Int × Bytes) : Prop :=
   b.ts = h.1 ∧ b.rawLen = h.2.length ∧ b.off + b.len ≤ cur ∧
   (b.rawLen = 0 ∨ (b.enc = 0 ∧ b.len = b.rawLen ∧ (file.drop b.off).take b.len = h.2) ∨
-   (b.enc ≠ 0 ∧ dec ((file.drop b.off).take b.len) = some h.2))
+   (b.enc ≠ 0 ∧ dec b.enc ((file.drop b.off).take b.len) = some h.2))
 
-structure ColInv (dec : Bytes → Option Bytes) (c : Col) (hist : List (Int × Bytes)) : Prop where
+structure ColInv (dec : Nat → Bytes → Option Bytes) (c : Col) (hist : List (Int × Bytes)) : Prop where
   blocks : All2 (Good dec c.file c.cur) c.hdr hist
   cur_le : c.cur ≤ c.file.length
   pos_ok : c.pos = none ∨ c.pos = some c.cur
@@ -115,10 +115,10 @@ theorem forall₂_snoc {α β : Type} {R : α → β → Prop} {l1 : List α} {l
 
 /-- **one accepted block write preserves the invariant and appends exactly (ts, data)** —
     for every size (incl. > 4096 and incompressible), every encoder output that decodes back. -/
-theorem writeBlock_inv (dec : Bytes → Option Bytes) (dflt : Nat) (c c' : Col) (hist : List (Int × Bytes))
+theorem writeBlock_inv (dec : Nat → Bytes → Option Bytes) (dflt : Nat) (c c' : Col) (hist : List (Int × Bytes))
     (ts : Int) (data comp : Bytes)
     (hinv : ColInv dec c hist)
-    (hdec : dflt ≠ 0 → dec comp = some data) (hnull : dflt = 0 → comp = data)
+    (hdec : dflt ≠ 0 → dec dflt comp = some data) (hnull : dflt = 0 → comp = data)
     (hw : writeBlock dflt c ts data comp = some c') :
     ColInv dec c' (hist ++ [(ts, data)]) := by
   unfold writeBlock at hw
@@ -164,12 +164,12 @@ theorem writeBlock_inv (dec : Bytes → Option Bytes) (dflt : Nat) (c c' : Col) 
             subst this
             exact Or.inr (Or.inl ⟨hd, rfl, writeAt_at _ _ _ hinv.cur_le⟩)
           · refine Or.inr (Or.inr ⟨hd, ?_⟩)
-            show dec (List.take comp.length (List.drop c.cur (writeAt c.file c.cur comp))) = some data
+            show dec dflt (List.take comp.length (List.drop c.cur (writeAt c.file c.cur comp))) = some data
             rw [writeAt_at _ _ _ hinv.cur_le]; exact hdec hd
         · exact writeAt_length _ _ _ hinv.cur_le
 
 /-- **every stored block reads back as the bytes that were written** -/
-theorem readBlock_good (dec : Bytes → Option Bytes) (file : Bytes) (cur : Nat) (hcur : cur ≤ file.length)
+theorem readBlock_good (dec : Nat → Bytes → Option Bytes) (file : Bytes) (cur : Nat) (hcur : cur ≤ file.length)
     (b : Blk) (h : Int × Bytes) (hg : Good dec file cur b h) : readBlock dec file b = some h.2 := by
   obtain ⟨_, h2, h3, h4⟩ := hg
   unfold readBlock
@@ -189,15 +189,15 @@ theorem readBlock_good (dec : Bytes → Option Bytes) (file : Bytes) (cur : Nat)
 /-! ## the day directory: 8 columns, sessions, abandoned sessions -/
 
 /-- contract between the raw bytes and the encoder output handed to a write -/
-def Contract (dec : Bytes → Option Bytes) (dflt : Nat) (w : Write) : Prop :=
-  w.cols.length = 8 ∧ ∀ p ∈ w.cols, (dflt ≠ 0 → dec p.2 = some p.1) ∧ (dflt = 0 → p.2 = p.1)
+def Contract (dec : Nat → Bytes → Option Bytes) (dflt : Nat) (w : Write) : Prop :=
+  w.cols.length = 8 ∧ ∀ p ∈ w.cols, (dflt ≠ 0 → dec dflt p.2 = some p.1) ∧ (dflt = 0 → p.2 = p.1)
 
 def colHist (ws : List Write) (j : Nat) : List (Int × Bytes) :=
   ws.map fun w => (w.ts, (w.cols.getD j ([], [])).1)
 
 def hists (ws : List Write) : List (List (Int × Bytes)) := (List.range 8).map (colHist ws)
 
-structure DayInv (dec : Bytes → Option Bytes) (d : Day) (ws : List Write) : Prop where
+structure DayInv (dec : Nat → Bytes → Option Bytes) (d : Day) (ws : List Write) : Prop where
   cols : All2 (ColInv dec) d.cols (hists ws)
   traffic : d.traffic = ws.map (·.tm)
   tot : d.tot = (ws.foldl (fun a w => add3 a w.tm) (0,0,0), ws.foldl (fun a w => add4 a w.cnt) (0,0,0,0))
@@ -285,7 +285,7 @@ theorem writeBlock_ext {dec} (dflt : Nat) (c c' : Col) (hist : List (Int × Byte
 theorem writeCols_ok {dec} (dflt : Nat) (ts : Int) (cols : List Col) (hs : List (List (Int × Bytes)))
     (ds : List (Bytes × Bytes))
     (hinv : All2 (ColInv dec) cols hs) (hlen : ds.length = cols.length)
-    (hc : ∀ p ∈ ds, (dflt ≠ 0 → dec p.2 = some p.1) ∧ (dflt = 0 → p.2 = p.1))
+    (hc : ∀ p ∈ ds, (dflt ≠ 0 → dec dflt p.2 = some p.1) ∧ (dflt = 0 → p.2 = p.1))
     (hnew : ∀ h ∈ hs, ts ∉ h.map (·.1)) :
     ∃ cols', writeCols dflt ts cols ds = (cols', true) ∧
       All2 (ColInv dec) cols' (List.zipWith (fun h (d : Bytes × Bytes) => h ++ [(ts, d.1)]) hs ds) ∧
@@ -479,6 +479,30 @@ theorem runSessions_inv {dec} (dflt : Nat) (ss : List Session)
       simp only [this, Bool.false_eq_true, if_false] at hs
       exact ih _ _ hs (fun x hx => hc x (by simp [hx]))
 
+/-- **all sessions, each with its own default encoder** -/
+theorem runTagged_inv {dec} (ses : List (Nat × Session))
+    (hc : ∀ p ∈ ses, ∀ w ∈ p.2, Contract dec p.1 w) :
+    DayInv dec (runTagged ses) (specBlocks [] (ses.map (·.2))) := by
+  unfold runTagged
+  suffices H : ∀ (ses : List (Nat × Session)) (d : Day) (ws : List Write), DayInv dec d ws →
+      (∀ p ∈ ses, ∀ w ∈ p.2, Contract dec p.1 w) →
+      DayInv dec (ses.foldl (fun d p => runSession p.1 d p.2) d) (specBlocks ws (ses.map (·.2))) from
+    H ses _ _ (dayInv_empty dec) hc
+  intro ses
+  induction ses with
+  | nil => intro d ws h _; simpa [specBlocks] using h
+  | cons p ses ih =>
+    intro d ws h hc
+    have hs := runSession_spec p.1 d ws p.2 h (hc p (by simp))
+    simp only [List.foldl_cons, List.map_cons, specBlocks]
+    split
+    · rename_i hacc; simp only [hacc, if_true] at hs
+      exact ih _ _ hs (fun x hx => hc x (by simp [hx]))
+    · rename_i hacc
+      have : sessionAccepted (ws.map (·.ts)) p.2 = false := by simpa using hacc
+      simp only [this, Bool.false_eq_true, if_false] at hs
+      exact ih _ _ hs (fun x hx => hc x (by simp [hx]))
+
 /-! ## the reader's view equals the spec -/
 
 theorem readAll_good {dec file cur} {hdr : List Blk} {hist : List (Int × Bytes)}
@@ -568,7 +592,7 @@ theorem mem_specBlocks (acc : List Write) (ss : List Session) (w : Write) (h : w
     buffer, compressible or not — any split into sessions, abandoned sessions included), a fresh
     reader sees exactly the blocks of the accepted sessions: same timestamps in order, every
     column byte-for-byte, the per-block summaries and the day totals. -/
-theorem read_after_sessions (dec : Bytes → Option Bytes) (dflt : Nat) (ss : List Session)
+theorem read_after_sessions (dec : Nat → Bytes → Option Bytes) (dflt : Nat) (ss : List Session)
     (hc : ∀ s ∈ ss, ∀ w ∈ s, Contract dec dflt w) :
     view dec (runSessions dflt ss) = specView ss := by
   have hinv := runSessions_inv (dec := dec) dflt ss hc
@@ -577,6 +601,23 @@ theorem read_after_sessions (dec : Bytes → Option Bytes) (dflt : Nat) (ss : Li
     rcases mem_specBlocks [] ss w hw with h | ⟨s, hs, hws⟩
     · simp at h
     · exact (hc s hs w hws).1
+  rw [view_of_inv _ _ hinv h8]
+  rfl
+
+/-- **read_after_sessions_mixed** (C01): the same for a day directory whose sessions were written
+    with DIFFERENT default encoders (e.g. lz4, then zstd, then null): the reader picks the decoder
+    by the type stored with each block, and sees every block byte-for-byte. `dec e` only has to
+    invert encoder `e` on the payloads of the sessions written with `e`. -/
+theorem read_after_sessions_mixed (dec : Nat → Bytes → Option Bytes) (ses : List (Nat × Session))
+    (hc : ∀ p ∈ ses, ∀ w ∈ p.2, Contract dec p.1 w) :
+    view dec (runTagged ses) = specView (ses.map (·.2)) := by
+  have hinv := runTagged_inv (dec := dec) ses hc
+  have h8 : ∀ w ∈ specBlocks [] (ses.map (·.2)), w.cols.length = 8 := by
+    intro w hw
+    rcases mem_specBlocks [] _ w hw with h | ⟨s, hs, hws⟩
+    · simp at h
+    · obtain ⟨p, hp, rfl⟩ := List.mem_map.1 hs
+      exact (hc p hp w hws).1
   rw [view_of_inv _ _ hinv h8]
   rfl
 
@@ -592,7 +633,7 @@ example :
     let small : Bytes × Bytes := ([1,2,3], [4,5])
     let w1 : Write := { ts := 300, tm := (1,0,0), cnt := (1,1,1,1), cols := (data, comp) :: List.replicate 7 small }
     let w2 : Write := { ts := 600, tm := (1,0,0), cnt := (1,1,1,1), cols := List.replicate 8 small }
-    let dec : Bytes → Option Bytes := fun c => if c = comp then some data else if c = [4,5] then some [1,2,3] else none
+    let dec : Nat → Bytes → Option Bytes := fun _ c => if c = comp then some data else if c = [4,5] then some [1,2,3] else none
     (∀ s ∈ [[w1, w2]], ∀ w ∈ s, Contract dec 1 w) ∧ comp.length > data.length ∧ comp.length > bufSize := by
   intro data comp small w1 w2 dec
   have hlc : comp.length = 5020 := List.length_replicate ..
